@@ -47,6 +47,10 @@ func (s resendState) FixMsgIn(session *session, msg *Message) (nextState session
 		return
 	}
 
+	// Whether the request now being answered is bounded (a chunk); one to infinity also covers
+	// whatever is found missing further up.
+	chunked := s.currentResendRangeEnd != 0
+
 	if s.currentResendRangeEnd != 0 && s.resendRangeEnd < session.store.NextTargetMsgSeqNum() {
 		// The whole gap is already closed (e.g. by a gap fill reaching past it): there is no
 		// further chunk to request, fall through to delivering the kept messages.
@@ -97,5 +101,31 @@ func (s resendState) FixMsgIn(session *session, msg *Message) (nextState session
 		}
 	}
 
+	// Messages kept above a number that is still missing stay kept: recovery goes on for that hole.
+	if lowest := s.lowestKeptAbove(session.store.NextTargetMsgSeqNum()); lowest != 0 {
+		if !chunked {
+			s.resendRangeEnd = lowest - 1
+			s.currentResendRangeEnd = 0
+			return s
+		}
+
+		nextResendState, err := session.sendResendRequest(session.store.NextTargetMsgSeqNum(), lowest-1)
+		if err != nil {
+			return handleStateError(session, err)
+		}
+		nextResendState.messageStash = s.messageStash
+		return nextResendState
+	}
+
+	return
+}
+
+// lowestKeptAbove returns the lowest number above seqNum under which a message is kept, 0 if there is none.
+func (s resendState) lowestKeptAbove(seqNum int) (lowest int) {
+	for kept := range s.messageStash {
+		if kept > seqNum && (lowest == 0 || kept < lowest) {
+			lowest = kept
+		}
+	}
 	return
 }
